@@ -223,6 +223,10 @@ func applyOp(ver string, impl gmsl.IRoomVersion, p gmsl.PDU, op string) (gmsl.PD
 func checkStep(r *rec, b *built, base *fields, p gmsl.PDU, op string, wantRed bool) (*fields, *hx.Result) {
 	after := opName(op)
 	f, acc, pan := observe(p)
+	if pan != "" && isDomainless(r.Ver) && acc == "RoomID" && b.room == nil {
+		return nil, fail("C03/domainless/after="+after+"/create-room-id:panic",
+			fmt.Sprintf("room version %s: RoomID() of the create event panics on the event returned by %s (the room ID must be the event ID with the sigil swapped): %s", r.Ver, after, pan), "!"+f.ID[1:], pan)
+	}
 	if pan != "" {
 		return nil, fail("C03/panic/after="+after+"/"+acc,
 			fmt.Sprintf("room version %s: %s() panics on the event returned by %s: %s", r.Ver, acc, after, pan), nil, pan)
@@ -233,6 +237,9 @@ func checkStep(r *rec, b *built, base *fields, p gmsl.PDU, op string, wantRed bo
 	}
 	if string(p.Version()) != r.Ver {
 		return nil, fail("C03/roundtrip/"+after+"/version", "Version() changed", r.Ver, p.Version())
+	}
+	if res := checkDomainless(r, p, &f, b, after); res != nil {
+		return nil, res
 	}
 	if name, w, g := compareFields(base, &f, !wantRed); name != "" {
 		if name == "event_id" {
@@ -248,9 +255,6 @@ func checkStep(r *rec, b *built, base *fields, p gmsl.PDU, op string, wantRed bo
 	if msg := checkAlphabet(r.IDFmt, f.ID, b.signer.name); msg != "" {
 		return nil, fail(fmt.Sprintf("C03/alphabet/format%d", r.IDFmt),
 			fmt.Sprintf("event ID %q of room version %s %s", f.ID, r.Ver, msg), nil, f.ID)
-	}
-	if res := checkDomainless(r, p, &f, b, after); res != nil {
-		return nil, res
 	}
 	return &f, nil
 }
